@@ -152,7 +152,9 @@ pub fn wall_clock(root: &Path) -> Vec<(String, i64, String)> {
     let d = fresh(root, "expiry");
     let now = Utc::now();
     let mut out = vec![];
-    for delta in [-31_536_000i64, -86_400, -3600, -2, 3600, 86_400, 31_536_000] {
+    // relative to the real clock, and absolute instants centuries in the past
+    let far_past = |y: i32| (chrono::TimeZone::with_ymd_and_hms(&Utc, y, 1, 1, 0, 0, 0).unwrap() - now).num_seconds();
+    for delta in [far_past(2), far_past(1000), far_past(1700), -31_536_000i64, -86_400, -3600, -2, 3600, 86_400, 31_536_000] {
         for off_min in [0i32, 330, -480, 840] {
             let instant = now + Duration::seconds(delta);
             // the layout is signed at second precision; the document spells the
